@@ -78,6 +78,7 @@ func rlRun(in []byte) (interface{}, error) {
 				body := []byte(fmt.Sprintf("return %d -- %d", f.Id, oi))
 				if rnd.Intn(2) == 0 {
 					body = append(body, bytes.Repeat([]byte(" ababab"), 10)...)
+					body = append(body, []byte(" -- redis.call redis.call r")...) // a back reference one byte longer than its distance
 					scripts = append(scripts, body)
 					w.AuxStr([]byte("lua"), body, rdbref.StrLZF)
 				} else {
@@ -193,6 +194,24 @@ func rlRun(in []byte) (interface{}, error) {
 					}
 					w.KeyStr(k.key, rdbref.StrAuto, rdbref.LenCanonical, k.typ, k.body)
 				case 1:
+					// LZF-stored key name.  Besides the names drawn above (long runs: overlapping back references), names whose
+					// back reference is exactly one byte longer than its distance (a block, the block again, its first byte) and
+					// names with several short repeated words
+					switch rnd.Intn(3) {
+					case 0:
+						blk := make([]byte, 3+rnd.Intn(22))
+						for i := range blk {
+							blk[i] = byte('a' + rnd.Intn(26))
+						}
+						k.key = []byte(fmt.Sprintf("%s%s%c-%d", blk, blk, blk[0], op.V))
+					case 1:
+						words := []string{"user:", "session:", "cache:", "{tag}", "0000"}
+						var nm []byte
+						for i := 0; i < 6; i++ {
+							nm = append(nm, words[rnd.Intn(len(words))]...)
+						}
+						k.key = append(nm, []byte(fmt.Sprint("#", op.V))...)
+					}
 					w.KeyStr(k.key, rdbref.StrLZF, rdbref.LenCanonical, k.typ, k.body)
 				default:
 					w.KeyForm(k.key, forms[rnd.Intn(len(forms))], k.typ, k.body)
